@@ -139,8 +139,9 @@ def _detect_alleles(variants, var_progress, first, bam_read):
         elif cigar_op == 5 or cigar_op == 6:  # H or P (hard clipping or padding)
             continue
 
-        # Queue all variants that start within the ref span of the cigar operation
-        ref_end = ref_pos + length
+        # Queue all variants that start within the ref span of the cigar operation. An insertion
+        # consumes no reference bases: it can only concern a variant located exactly at ref_pos
+        ref_end = ref_pos + (length if cigar_op != 1 else 1)
         while j < n:
             var_id = var_progress[j].variant_id
             var_pos = variants[var_id].position
